@@ -599,8 +599,9 @@ def local_session_probe(ctx, rep: Report, n, only=None):
             if victim == 'snapshot':
                 be.armed = ('upload_stream', k)
                 try:
-                    await r.snapshot(paths=[wd / 'b'])
-                    out['outcome'] = 'completed'
+                    done_ = await r.snapshot(paths=[wd / 'b'])
+                    out['outcome'] = 'completed'         # the failing call was never reached: an ordinary snapshot
+                    truth[done_.name] = {'g': (wd / 'b' / 'g').read_bytes(), 'h': (wd / 'b' / 'h').read_bytes()}
                 except BackendDown:
                     out['outcome'], fired = 'failed', True
                 except Exception as e:
